@@ -126,7 +126,7 @@ package stack
 //@   modifies ghost(lastLocalCheck), ghost(learned), ghost(arpSent)
 
 //@ func modset.NETGHOSTS
-//@   modifies ghost(tcpSegs), ghost(lastTCPFlags), ghost(lastTCPSeq), ghost(lastTCPAck), ghost(sentNonFin), ghost(sentFin)
+//@   modifies ghost(tcpSegs), ghost(lastTCPFlags), ghost(lastTCPSeq), ghost(lastTCPAck), ghost(sentNonFin), ghost(sentFin), ghost(lastSegEnd)
 //@   modifies ghost(icmpSent), ghost(lastICMPType), ghost(lastICMPCode), ghost(lastICMPHdrLen), ghost(lastICMPPayloadArr), ghost(lastICMPPayloadOff), ghost(lastICMPPayloadLen)
 
 // What the stack core may change when called from transport code: anything except existing TCP
@@ -155,10 +155,12 @@ package stack
 //@   ensures result == demuxPick(eps.endpoints, id)
 
 // ASSUMED interface contract: handing a packet to a transport endpoint is counted.
+// (and: no transport endpoint replaces a demultiplexer's per-protocol tables - they are built
+// once by newTransportDemuxer)
 //@ func (TransportEndpoint).HandlePacket props C09
 //@   nobody
 //@   ghost_set handled = old(ghost(handled)) + 1
-//@   modifies everything(), ghost(handled)
+//@   modifies everything_but(Stack, transportProtocolState, transportDemuxer, map[protocolIDs]*transportEndpoints), ghost(handled)
 
 // deliverPacket hands the packet to exactly the endpoint picked above - once - or to nobody.
 //@ func (*transportDemuxer).deliverPacket props C09
@@ -168,7 +170,7 @@ package stack
 //@   ensures implies(!old(has(d.protocol, protocolIDs{r.NetProto, protocol})), !result && ghost(handled) == old(ghost(handled)))
 //@   ensures implies(old(has(d.protocol, protocolIDs{r.NetProto, protocol})), result == (old(demuxPick(d.protocol[protocolIDs{r.NetProto, protocol}].endpoints, id)) != nil))
 //@   ensures ghost(handled) == old(ghost(handled)) + ite(result, 1, 0)
-//@   modifies everything(), ghost(handled)
+//@   modifies everything_but(Stack, transportProtocolState, transportDemuxer, map[protocolIDs]*transportEndpoints), ghost(handled)
 
 // ---------------------------------------------------------------------------
 // C12: ASSUMED interface contracts of the link address cache as seen from the ARP endpoint.
@@ -297,3 +299,31 @@ package stack
 //@   loop 1 invariant dmxOthersKept(d, id)
 //@   loop 1 invariant forallkey(p, d.protocol, implies(has(d.protocol, p) && forall(j, 0, rangeindex + 1, !has(d.protocol, protocolIDs{netProtos[j], protocol}) || d.protocol[p].endpoints != epsAt(d, netProtos[j], protocol).endpoints), sameAt(d.protocol[p].endpoints, id)))
 //@   modifies mapfamily(map[TransportEndpointID]TransportEndpoint)
+
+// ---------------------------------------------------------------------------
+// C09: NIC.DeliverTransportPacket. The identifier looked up is (destination port, the route's
+// local address, source port, the route's remote address) with the ports parsed from the
+// packet; the NIC's own demultiplexer is asked first and the stack-wide one only if that
+// delivered to nobody; the protocol's unknown-destination handler (TCP: reset) is called only
+// if nobody got the packet; so at most one endpoint gets it.
+//@ func (TransportProtocol).MinimumPacketSize props C09
+//@   nobody
+//@ func (TransportProtocol).ParsePorts props C09
+//@   nobody
+// (ASSUMED frame: answering a stray packet does not reconfigure the Stack object)
+//@ func (TransportProtocol).HandleUnknownDestinationPacket props C09
+//@   nobody
+//@   modifies everything_but(Stack)
+
+//@ func (*NIC).DeliverTransportPacket props C09
+//@   requires n != nil && n.stack != nil && statsOK(n.stack.stats) && r != nil
+//@   requires n.demux != nil && n.demux.protocol != nil && forallkey(k, n.demux.protocol, implies(has(n.demux.protocol, k), n.demux.protocol[k] != nil))
+//@   requires n.stack.demux != nil && n.stack.demux.protocol != nil && forallkey(k, n.stack.demux.protocol, implies(has(n.stack.demux.protocol, k), n.stack.demux.protocol[k] != nil))
+//@   requires forallkey(t, n.stack.transportProtocols, implies(has(n.stack.transportProtocols, t), n.stack.transportProtocols[t] != nil && n.stack.transportProtocols[t].proto != nil))
+// (no per-stack default handler installed: SetTransportProtocolHandler is not used by this stack's own code)
+//@   requires forallkey(t, n.stack.transportProtocols, implies(has(n.stack.transportProtocols, t), n.stack.transportProtocols[t].defaultHandler == nil))
+//@   at_call deliverPacket requires id == TransportEndpointID{dstPort, old(r.LocalAddress), srcPort, old(r.RemoteAddress)} && protocol == caller(protocol) && r == caller(r)
+//@   at_call deliverPacket requires (recv == n.demux && ghost(handled) == old(ghost(handled))) || (recv == n.stack.demux && ghost(handled) == old(ghost(handled)))
+//@   at_call HandleUnknownDestinationPacket requires ghost(handled) == old(ghost(handled)) && id == TransportEndpointID{dstPort, old(r.LocalAddress), srcPort, old(r.RemoteAddress)}
+//@   ensures ghost(handled) == old(ghost(handled)) || ghost(handled) == old(ghost(handled)) + 1
+//@   modifies everything(), ghost(handled)
